@@ -11,6 +11,7 @@
 #include "codec_util.hpp"
 #include "siggen.hpp"
 #include "audio_metrics_decl.h"
+#include "refapi.h"
 extern "C" {
 #include "entdec.h"
 }
@@ -117,6 +118,9 @@ int vp_case(Choice& c, Report& rep) {
   int err = 0;
   cu::Enc enc; cu::Dec lossy, clean, plconly;
   enc.p = opus_encoder_create(g.Fs, g.ch, g.app, &err);
+  struct RefDec { OpusDecoder* p = nullptr; ~RefDec() { if (p) ref_opus_decoder_destroy(p); } } rlossy;   // frozen decoder fed the identical call sequence
+  rlossy.p = ref_opus_decoder_create(g.Fs, g.ch, &err);
+  VP_REQUIRE(rlossy.p, "c09:create", "reference decoder create failed");
   lossy.p = opus_decoder_create(g.Fs, g.ch, &err); clean.p = opus_decoder_create(g.Fs, g.ch, &err); plconly.p = opus_decoder_create(g.Fs, g.ch, &err);
   VP_REQUIRE(enc.p && lossy.p && clean.p && plconly.p, "c09:create", "create failed");
   opus_encoder_ctl(enc.p, OPUS_SET_BITRATE(g.bitrate)); opus_encoder_ctl(enc.p, OPUS_SET_COMPLEXITY(g.complexity));
@@ -128,7 +132,8 @@ int vp_case(Choice& c, Report& rep) {
   double amp = 0.4;
   // ---- schedule: warm-up, loss section, tail
   int warm = (g.Fs * 3 / 10 + fs - 1) / fs; if (warm < 4) warm = 4;            // >= 300 ms
-  int tailp = (g.Fs * 8 / 10 + fs - 1) / fs;                                       // >= 800 ms of reception at the end
+  bool long_tail = family == 0 && c.chance(64);
+  int tailp = (g.Fs * (long_tail ? 25 : 8) / 10 + fs - 1) / fs;                    // >= 800 ms (sometimes 2.5 s) of reception at the end
   std::vector<uint8_t> lost;   // per packet
   int burst_packets = 0;
   if (family == 1) {
@@ -141,6 +146,16 @@ int vp_case(Choice& c, Report& rep) {
   } else {
     lost.assign((size_t)warm, 0);
     int nb = c.irange(1, 3);
+    bool double_burst = c.chance(40);
+    if (double_burst) {
+      // long burst, a few received packets, second sustained burst (background-noise estimate after a long gap)
+      int n1 = (int)((4.0 + c.irange(0, 40) / 10.0) * g.Fs / fs), gap = c.irange(3, 10), n2 = (int)((1.2 + c.irange(0, 18) / 10.0) * g.Fs / fs);
+      for (int i = 0; i < n1; i++) lost.push_back(1);
+      for (int i = 0; i < gap; i++) lost.push_back(0);
+      for (int i = 0; i < n2; i++) lost.push_back(1);
+      burst_packets = n1; nb = 0;
+      rep.label("schedule:double-burst");
+    }
     for (int b = 0; b < nb; b++) {
       int sel = c.irange(0, 4);
       double seconds = sel == 0 ? 0.02 : sel == 1 ? 0.1 : sel == 2 ? c.irange(2, 10) / 10.0 : sel == 3 ? c.irange(10, 30) / 10.0 : c.irange(30, 100) / 10.0;
@@ -164,6 +179,17 @@ int vp_case(Choice& c, Report& rep) {
   std::vector<float> x;
   bool all_vad = true, celt_only = true;
   sig::generate(g.family, sig_seed, g.Fs, g.ch, N * fs, amp, x);
+  bool two_talkers = false;   // (absolute FEC clause not asserted: calibration shows the frozen codec itself gains as little as -0.05 dB there)
+  // two talkers: the right channel carries a second speech-like source that starts and stops independently of the left one, so that
+  // side-channel activity differs between a lost packet and its successor (stereo LBRR / mid-only paths)
+  if (family == 2 && g.ch == 2 && c.chance(160)) {
+    std::vector<float> l1, r1;
+    sig::generate(sig::SPEECHLIKE, sig_seed, g.Fs, 1, N * fs, amp, l1);
+    sig::generate(sig::SPEECHLIKE, sig_seed ^ 0x5bd1e995u, g.Fs, 1, N * fs, amp, r1);
+    Rng gr(sig_seed + 17); int pos2 = 0; bool on = gr.u32() & 1;
+    while (pos2 < N * fs) { int len2 = (int)((0.4 + 1.2 * gr.unit()) * g.Fs); for (int i = pos2; i < pos2 + len2 && i < N * fs; i++) { x[(size_t)2 * i] = l1[i]; x[(size_t)2 * i + 1] = on ? r1[i] : 0.02f * r1[i]; } pos2 += len2; on = !on; }
+    rep.label("signal:two-talkers"); two_talkers = true;
+  }
   // continuously voiced, amplitude- and pitch-modulated harmonic signal: keeps the speech layer's VAD at 1 in every frame, so that the
   // decay clause (which the codec only promises when no frame was flagged inactive) is reachable for SILK / hybrid streams
   bool voiced_cont = family == 0 && g.family == sig::SPEECHLIKE && g.mode != 1002 && c.chance(150);
@@ -187,20 +213,21 @@ int vp_case(Choice& c, Report& rep) {
     if (rfc::toc_info(pk[i][0]).mode != rfc::CELT) { celt_only = false; if (!lost[i] && !silk_all_vad(pk[i].data(), n)) all_vad = false; }
   }
   // ---- decode
-  std::vector<float> yl((size_t)N * fs * g.ch), yc((size_t)N * fs * g.ch), yp((size_t)N * fs * g.ch);
-  double e_fec = 0, e_plc = 0; int fec_frames = 0;
+  std::vector<float> yl((size_t)N * fs * g.ch), yc((size_t)N * fs * g.ch), yp((size_t)N * fs * g.ch), yr((size_t)N * fs * g.ch);
+  double e_fec = 0, e_plc = 0, e_fec_ref = 0; int fec_frames = 0; double e_fec_all = 0, e_fec_ref_all = 0; int fec_all = 0;
   int first_loss = -1, resumed_at = -1; int run = 0, longest_run = 0; int run_start = -1;
   double preloss_rms = 0, preloss_peak = 0;
   bool deferred = false;
   bool nontriv = false; uint64_t fp = mix(g.Fs, mix(g.ch, mix(g.mode, mix(g.d, pattern))));
   for (int i = 0; i < N; i++) {
-    float* ol = yl.data() + (size_t)i * fs * g.ch; float* oc = yc.data() + (size_t)i * fs * g.ch; float* op = yp.data() + (size_t)i * fs * g.ch;
+    float* ol = yl.data() + (size_t)i * fs * g.ch; float* oc = yc.data() + (size_t)i * fs * g.ch; float* op = yp.data() + (size_t)i * fs * g.ch; float* orf = yr.data() + (size_t)i * fs * g.ch;
     HeapBuf<uint8_t> data(pk[i].size()); memcpy(data.p, pk[i].data(), pk[i].size());
     int n = opus_decode_float(clean.p, data.p, (opus_int32)pk[i].size(), oc, fs, 0);
     VP_REQUIRE(n == fs, "c09:clean-decode", "loss-free decoder returned %d", n);
     rep.count();
     if (!lost[i]) {
       n = opus_decode_float(lossy.p, data.p, (opus_int32)pk[i].size(), ol, fs, 0);
+      (void)ref_opus_decode_float(rlossy.p, data.p, (opus_int32)pk[i].size(), orf, fs, 0);
       VP_REQUIRE(n == fs, "c09:received-decode", "decoder returned %d for a received packet after losses", n);
       opus_uint32 dr = 0; opus_decoder_ctl(lossy.p, OPUS_GET_FINAL_RANGE(&dr));
       VP_REQUIRE(dr == erange[i], "c09:final-range-after-loss", "packet %d received after %d lost: decoder final range %08x, encoder %08x", i, run, dr, erange[i]);
@@ -247,12 +274,15 @@ int vp_case(Choice& c, Report& rep) {
       if (deferred) {
         req = 2 * fs;
         n = opus_decode_float(lossy.p, nd.p, (opus_int32)pk[i + 1].size(), ol - (size_t)fs * g.ch, req, 1);
+        (void)ref_opus_decode_float(rlossy.p, nd.p, (opus_int32)pk[i + 1].size(), orf - (size_t)fs * g.ch, req, 1);
         rep.label("fec-larger-than-packet");
         deferred = false;
       } else
-      n = opus_decode_float(lossy.p, nd.p, (opus_int32)pk[i + 1].size(), ol, req, 1);
+      { n = opus_decode_float(lossy.p, nd.p, (opus_int32)pk[i + 1].size(), ol, req, 1);
+        (void)ref_opus_decode_float(rlossy.p, nd.p, (opus_int32)pk[i + 1].size(), orf, req, 1); }
       VP_REQUIRE(n == req, "c09:fec-duration", "FEC request of %d samples returned %d (next packet has_lbrr=%d)", req, n, has);
       rep.label(has > 0 ? "fec-with-lbrr" : "fec-without-lbrr");
+      if (has > 0) { for (int k = 0; k < fs * g.ch; k++) { double a = ol[k] - oc[k], b = orf[k] - oc[k]; e_fec_all += a * a; e_fec_ref_all += b * b; } fec_all++; }
       if (family == 2) {
         n = opus_decode_float(plconly.p, nullptr, 0, op, fs, 0);
         VP_REQUIRE(n == fs, "c09:plc-duration", "concealment request of %d samples returned %d", fs, n);
@@ -267,6 +297,7 @@ int vp_case(Choice& c, Report& rep) {
       while (done < fs) {
         int piece = F2_5 * (1 << c.irange(0, 3)); if (piece > fs - done) piece = fs - done; piece -= piece % F2_5; if (piece <= 0) piece = F2_5;
         n = opus_decode_float(lossy.p, nullptr, 0, ol + (size_t)done * g.ch, piece, 0);
+        (void)ref_opus_decode_float(rlossy.p, nullptr, 0, orf + (size_t)done * g.ch, piece, 0);
         VP_REQUIRE(n == piece, "c09:plc-duration", "concealment request of %d samples returned %d", piece, n);
         done += piece;
       }
@@ -274,6 +305,7 @@ int vp_case(Choice& c, Report& rep) {
       if (family == 2) { n = opus_decode_float(plconly.p, nullptr, 0, op, fs, 0); VP_REQUIRE(n == fs, "c09:plc-duration", "concealment returned %d", n); }
     } else {
       n = opus_decode_float(lossy.p, nullptr, 0, ol, fs, 0);
+      (void)ref_opus_decode_float(rlossy.p, nullptr, 0, orf, fs, 0);
       VP_REQUIRE(n == fs, "c09:plc-duration", "concealment request of %d samples returned %d", fs, n);
       rep.label("plc-whole");
       if (family == 2) { n = opus_decode_float(plconly.p, nullptr, 0, op, fs, 0); VP_REQUIRE(n == fs, "c09:plc-duration", "concealment returned %d", n); }
@@ -291,6 +323,16 @@ int vp_case(Choice& c, Report& rep) {
       double pkc = am_peak(ol, fs * g.ch, 1);
       if (ref > 1e-4) { char cb[200]; snprintf(cb, sizeof cb, "%s/Fs%d/ch%d/br%d/run%d/fam%d/sig%d/ref%.4f/fec%d", cls, g.Fs, g.ch, g.bitrate, run, family, g.family, ref, use_fec); calib_log("peak_ratio", pkc / ref, cb); }
       VP_REQUIRE(pkc <= (use_fec ? K_PEAK_FEC : K_PEAK_PLC) * ref + EPS_PEAK, "c09:concealment-too-loud", "concealed packet %d (run %d, %s): peak %.4f, recent/pre-loss peak %.4f", i, run, use_fec ? "FEC" : "PLC", pkc, ref);
+    }
+    // ---- one-sided clauses relative to the frozen decoder fed the identical calls (per-case calibration; generous factors)
+    {
+      double pk_t = am_peak(ol, fs * g.ch, 1), pk_r = am_peak(orf, fs * g.ch, 1);
+      VP_REQUIRE(pk_t <= 3.0 * pk_r + 0.05 * preloss_peak + 2e-3, "c09:louder-than-frozen-concealment", "concealed packet %d (run %d, %s): peak %.4f, frozen decoder %.4f (pre-loss peak %.4f)", i, run, use_fec ? "FEC" : "PLC", pk_t, pk_r, preloss_peak);
+      if ((run * (long)fs) >= g.Fs) {
+        double r_t = am_rms(ol, fs * g.ch, 1), r_r = am_rms(orf, fs * g.ch, 1);
+        VP_REQUIRE(r_t <= 2.0 * r_r + 0.02 * preloss_rms + 1e-4, "c09:decays-less-than-frozen", "after %.2f s of sustained loss the concealment RMS is %.5f, frozen decoder %.5f (pre-loss RMS %.4f)", run * (double)fs / g.Fs, r_t, r_r, preloss_rms);
+        rep.label("decay-vs-frozen-checked");
+      }
     }
     // decay under sustained loss
     if ((run * (long)fs) >= g.Fs && celt_only && g.family == sig::SPEECHLIKE && !voiced_cont && preloss_rms > 1e-3) {
@@ -315,13 +357,23 @@ int vp_case(Choice& c, Report& rep) {
       VP_REQUIRE(pl <= K_RESUME * ref + EPS_PEAK, "c09:loud-after-loss", "first 100 ms after reception resumes: peak %.4f, loss-free twin %.4f, pre-loss %.4f", pl, pc, pre);
       rep.label("resume-peak-checked");
     }
-    int a = r0 + g.Fs / 2, b = r0 + g.Fs * 7 / 10;
-    if (b <= total) {
-      double es = 0, en = 0;
-      for (int k = a * g.ch; k < b * g.ch; k++) { double s = yc[k], d = yl[k] - yc[k]; es += s * s; en += d * d; }
+    // (relative) 50 ms windows over the whole tail: wherever the frozen decoder fed the same calls has re-converged, the tree must have too
+    for (int a = r0, b = a + g.Fs / 20; b <= total; a = b, b = a + g.Fs / 20) {
+      double es = 0, en = 0, enr = 0;
+      for (int k = a * g.ch; k < b * g.ch; k++) { double sg = yc[k], d1 = yl[k] - yc[k], d2 = yr[k] - yc[k]; es += sg * sg; en += d1 * d1; enr += d2 * d2; }
       if (es > 1e-6 * (b - a)) {
+        double snr_t = 10 * std::log10((es + 1e-20) / (en + 1e-20)), snr_r = 10 * std::log10((es + 1e-20) / (enr + 1e-20));
+        if (snr_r >= 30.0) { VP_REQUIRE(snr_t >= 18.0, "c09:reconverges-worse-than-frozen", "%d-%d ms after reception resumed the lossy decoder is %.1f dB from the loss-free twin; the frozen decoder on the same calls is at %.1f dB", (a - r0) * 1000 / g.Fs, (b - r0) * 1000 / g.Fs, snr_t, snr_r); rep.label("reconvergence-vs-frozen-checked"); }
+      }
+    }
+    // (absolute, calibrated) 500-700 ms after reception resumed
+    {
+      int a = r0 + g.Fs / 2, b = r0 + g.Fs * 7 / 10;
+      double es = 0, en = 0;
+      if (b <= total) for (int k = a * g.ch; k < b * g.ch; k++) { double sg = yc[k], d1 = yl[k] - yc[k]; es += sg * sg; en += d1 * d1; }
+      if (b <= total && es > 1e-6 * (b - a)) {
         double snr = 10 * std::log10((es + 1e-20) / (en + 1e-20));
-        { char cb[200]; snprintf(cb, sizeof cb, "%s/Fs%d/ch%d/br%d/run%d/fam%d/sig%d/fec%d/shape%d/es%.2e", cls, g.Fs, g.ch, g.bitrate, longest_run, family, g.family, g.fec, call_shape, es / ((b - a) * g.ch)); calib_log("reconv_snr", snr, cb); }
+        { char cb[200]; snprintf(cb, sizeof cb, "%s/Fs%d/ch%d/br%d/run%d/fam%d/sig%d", cls, g.Fs, g.ch, g.bitrate, longest_run, family, g.family); calib_log("reconv_snr", snr, cb); }
         bool aperiodic = (g.family == sig::SPEECHLIKE && !voiced_cont) || g.family == sig::NOISE;
         if (celt_only) { VP_REQUIRE(snr >= RECONV_SNR_CELT_DB, "c09:no-reconvergence", "MDCT-only stream: 500-700 ms after reception resumed the lossy decoder is %.1f dB from the loss-free twin (longest loss %d packets)", snr, longest_run); rep.label("reconvergence-checked"); }
         else if (aperiodic) { VP_REQUIRE(snr >= RECONV_SNR_OTHER_DB, "c09:no-reconvergence", "500-700 ms after reception resumed the lossy decoder is %.1f dB from the loss-free twin (longest loss %d packets)", snr, longest_run); rep.label("reconvergence-checked"); }
@@ -329,13 +381,17 @@ int vp_case(Choice& c, Report& rep) {
       }
     }
   }
-  if (family == 2 && fec_frames >= 20 && g.d <= 3) {
+  if (fec_all >= 8) {
+    VP_REQUIRE(e_fec_all <= 2.0 * e_fec_ref_all + 1e-7 * fec_all * fs, "c09:fec-worse-than-frozen", "over %d frames recovered from LBRR data the error energy against the loss-free twin is %.3g, frozen decoder on the same calls %.3g", fec_all, e_fec_all, e_fec_ref_all);
+    rep.label("fec-vs-frozen-checked");
+  }
+  if (family == 2 && fec_frames >= 20 && g.d <= 3 && !two_talkers) {
     double gain = 10 * std::log10((e_plc + 1e-20) / (e_fec + 1e-20));
     { char cb[200]; snprintf(cb, sizeof cb, "%s/Fs%d/ch%d/br%d/n%d/loss%d", cls, g.Fs, g.ch, g.bitrate, fec_frames, g.loss); calib_log("fec_gain_db", gain, cb); }
     VP_REQUIRE(gain >= FEC_GAIN_DB, "c09:fec-not-better", "over %d single losses with LBRR available, FEC error energy is only %.2f dB below concealment", fec_frames, gain);
     rep.label("fec-aggregate-checked");
   }
-  (void)sched_end; (void)burst_packets;
+  (void)sched_end; (void)burst_packets; (void)e_fec_ref;
   if (longest_run * (long)fs >= g.Fs) rep.label("burst>=1s");
   if (longest_run * (long)fs >= 5L * g.Fs) rep.label("burst>=5s");
   rep.labelf("family:%d", family);
